@@ -119,6 +119,9 @@ theorem hr_as_str_some (h : HeapRef) {b : Block} (hg : hp.get? a = some b) :
     (h.rs_as_str : M ρ Str) ⟨rf, st, hp, .heap a l⟩ =
       if l ≤ b.cap then .next ⟨b.data.take l⟩ ⟨rf, st, hp, .heap a l⟩ else .ub .oob := by
   simp only [HeapRef.rs_as_str, onHeap, hg]
+theorem hr_as_str_none (h : HeapRef) (hg : hp.get? a = none) :
+    (h.rs_as_str : M ρ Str) ⟨rf, st, hp, .heap a l⟩ = .ub .useAfterFree := by
+  simp only [HeapRef.rs_as_str, onHeap, hg]
 theorem hr_refcount_some (h : HeapRef) {b : Block} (hg : hp.get? a = some b) :
     (h.rs_reference_count : M ρ RcRef) ⟨rf, st, hp, .heap a l⟩ = .next .mk ⟨rf, st, hp, .heap a l⟩ := by
   simp only [HeapRef.rs_reference_count, onHeap, hg]
@@ -165,6 +168,11 @@ theorem ir_set_len_ap (r : InlineRef) (n : Nat) (rf : Refuse) (st : List Bytes) 
 
 theorem field_0_ap (s : St) : (Repr.field_0 : M ρ RawPtr) s = .next ⟨s.self⟩ s := by cases s; rfl
 theorem overflow_ap (r : Handle) (s : St) : (ref_count_overflow r : M ρ Unit) s = .ub .rcOverflow := by cases s; rfl
+
+theorem sstr_len_ap (t : SStr) (s : St) : (t.rs_len : M ρ Nat) s = .next t.b.length s := by cases s; rfl
+theorem static_new_ap (t : SStr) (s : St) :
+    (StaticBuffer.new t : M ρ (Rs StaticBuf)) s =
+      .next (if t.b.length > STATIC_MAX_LEN then .err else .ok ⟨t.sid, t.b.length⟩) s := by cases s; rfl
 
 theorem isHeap_heap (a l : Nat) : isHeap (.heap a l) = true := by simp only [isHeap]
 theorem isHeap_inl (raw : Bytes) : isHeap (.inl raw) = false := by simp only [isHeap]
@@ -255,9 +263,27 @@ macro_rules
       read_self_ap, as_heap_ap, as_heap_mut_ap, as_static_ap, as_static_mut_ap, as_inline_mut_ap,
       hr_is_len_on_heap_ap, hr_realloc_ap, hr_set_len_ap, fence_ap, sr_len_ap, sr_set_len_ap, ir_set_len_ap,
       field_0_ap, overflow_ap, isHeap_heap, isHeap_inl, isHeap_stat, isStatic_heap, isStatic_inl, isStatic_stat,
-      max_inline_size_eq, as_slice_mut_inl, as_slice_mut_stat, as_str_mut_inl, as_str_mut_stat, index_range_ap, index_from_ap,
+      max_inline_size_eq, sstr_len_ap, static_new_ap, as_slice_mut_inl, as_slice_mut_stat, as_str_mut_inl, as_str_mut_stat, index_range_ap, index_from_ap,
       sl_len_ap, sl_as_mut_ptr_ap, ptr_add_ap, str_as_bytes_ap, str_as_ptr_ap, writeSelf_ap, copy_from_slice_ap, ptr_copy_ap,
       ptr_copy_nonoverlapping_ap, sl_chars_ap, str_chars_ap, chars_next_ap, chars_next_back_ap, unwrap_some, unwrap_none, len_utf8_ap,
       decide_true, decide_false, Bool.not_true, Bool.not_false, Bool.false_eq_true, ↓reduceIte])
+
+/-- `rt_step` on a heap `self` whose block is known (`hg : hp.get? a = some b`) / known to be gone
+(`hg : hp.get? a = none`): every read of the header or the text, whatever their order in the source -/
+syntax "rt_heap_some" term:max term:max term:max term:max term:max term:max ("[" Lean.Parser.Tactic.simpLemma,* "]")? : tactic
+macro_rules
+  | `(tactic| rt_heap_some $rf $st $hp $a $l $hg) => `(tactic| rt_heap_some $rf $st $hp $a $l $hg [bind_ap])
+  | `(tactic| rt_heap_some $rf $st $hp $a $l $hg [$ts,*]) => `(tactic| rt_step [$ts,*, $hg:term,
+      hr_is_unique_some $rf $st $hp $a $l _ $hg, hr_capacity_some $rf $st $hp $a $l _ $hg, hr_len_some $rf $st $hp $a $l _ $hg,
+      hr_as_str_some $rf $st $hp $a $l _ $hg, hr_refcount_some $rf $st $hp $a $l _ $hg,
+      rc_fetch_sub_some $rf $st $hp $a $l _ _ _ $hg, rc_fetch_add_some $rf $st $hp $a $l _ _ _ $hg,
+      as_slice_mut_heap $rf $st $hp $a $l $hg, as_str_mut_heap $rf $st $hp $a $l $hg])
+syntax "rt_heap_none" term:max term:max term:max term:max term:max term:max ("[" Lean.Parser.Tactic.simpLemma,* "]")? : tactic
+macro_rules
+  | `(tactic| rt_heap_none $rf $st $hp $a $l $hg) => `(tactic| rt_heap_none $rf $st $hp $a $l $hg [bind_ap])
+  | `(tactic| rt_heap_none $rf $st $hp $a $l $hg [$ts,*]) => `(tactic| rt_step [$ts,*, $hg:term,
+      hr_is_unique_none $rf $st $hp $a $l _ $hg, hr_capacity_none $rf $st $hp $a $l _ $hg, hr_len_none $rf $st $hp $a $l _ $hg,
+      hr_as_str_none $rf $st $hp $a $l _ $hg, hr_refcount_none $rf $st $hp $a $l _ $hg,
+      as_slice_mut_heap_none $rf $st $hp $a $l $hg, as_str_mut_heap_none $rf $st $hp $a $l $hg])
 
 end LS.GenTie
